@@ -143,6 +143,7 @@ type opT struct {
 	N         int    `json:"n,omitempty"`          // fetch: number; setvar: value
 	NVars     int    `json:"nvars,omitempty"`      // fetch: number of INTO variables (2 = matching)
 	DeclVar   bool   `json:"decl_var,omitempty"`   // while: WHILE VAR ...
+	Inner     bool   `json:"inner,omitempty"`      // while: the body declares and opens a cursor of its own (local to each iteration)
 	Break     int    `json:"break,omitempty"`      // while: BREAK after this many iterations (0: never)
 	Body      string `json:"body,omitempty"`       // while: DML in the loop body: "" updall delall ins
 	What      string `json:"what,omitempty"`       // status: open range count; dml: insert update updall updid delete delall; alter: drop add ren renback; mku: file temp; alloc: inc mix sel str strsel print; dispvar: a b both o
@@ -300,9 +301,10 @@ func genWhile(t *rapid.T, cur string) opT {
 		o.Break = uni(t, "breakAt", 1, 4)
 	}
 	o.Body = weighted(t, "body", []wt{{"", 55}, {"updall", 20}, {"delall", 10}, {"ins", 15}})
+	o.Inner = o.Body == "" && chance(t, "innerCursor", 30)
 	if act := weighted(t, "act", []wt{{"", 55}, {"dispose", 18}, {"close", 12}, {"reopen", 15}}); act != "" {
 		// the body disposes / closes / closes and reopens the loop cursor in some iteration
-		o.Act, o.Break, o.Body = act, 0, ""
+		o.Act, o.Break, o.Body, o.Inner = act, 0, "", false
 		o.At = []int{1, 1, 1, 1, 2, 2, 3}[uni(t, "at", 0, 6)]
 		o.Via = "if"
 		if act != "reopen" && chance(t, "direct", 35) {
@@ -1560,6 +1562,12 @@ func checkHist(c histCase) (fw.Outcome, *fw.Violation) {
 			case "ins":
 				body = " INSERT INTO t (id, v) VALUES (999, 'loop');"
 			}
+			if op.Inner && op.Body == "" {
+				// a cursor (and a variable) declared at the top level of the body lives for one iteration: the next iteration
+				// declares it again, and after the loop the name is undeclared
+				body = " DECLARE zc CURSOR FOR SELECT 7 AS z; OPEN zc; VAR @zv; FETCH zc INTO @zv;"
+				class("while:body_declares_cursor")
+			}
 			brk := ""
 			if op.Break > 0 {
 				brk = fmt.Sprintf(" @n := @n + 1; IF @n >= %d THEN BREAK; END IF;", op.Break)
@@ -2254,7 +2262,7 @@ func TestC16CursorHistory(t *testing.T) {
 	fw.Run(t, fw.Spec[histCase]{
 		ID: "C16", Name: "cursor_history", Quick: 24000, Thorough: 400000,
 		Gen: genCase, Check: checkHist,
-		Rule: "a table t (CSV file with text cells or temporary table with integer ids, 0-6 rows) and a history of 4-31 operations on two cursors generated up front: DECLARE (14 queries incl. ORDER BY, LIMIT, variable, self-join, FROM-subquery, computed integer/float columns, and four that fail for some table states: division by zero in the select list / in WHERE, scalar subquery with too many records, a table u that may not exist; 3 prepared statements incl. SELECT ... INTO), OPEN [USING none/one/two values], FETCH in all six positions with offsets -9..9 (9% of the undirected ABSOLUTE/RELATIVE fetches: literals around +-2^31, +-2^62 and +-(2^63-1)) given as literal, variable (also one filled by an earlier FETCH) or expression, the same FETCH statement repeated inside a WHILE loop with integer arithmetic in between, CLOSE, DISPOSE, WHILE IN (VAR, BREAK, DML in the body; bodies that DISPOSE, CLOSE or CLOSE+re-OPEN the loop cursor in some iteration, directly or in a nested IF: every iteration fetches from what the name refers to then; an inner cursor of the same name declared in a nested block, looped over and disposed in the body, after which the name means the outer cursor), DISPOSE of the variables a FETCH filled followed by value-creating expressions (concatenation, string functions, arithmetic in SET/PRINT/SELECT) and re-reads of the same row, IS [NOT] OPEN / IS [NOT] IN RANGE / COUNT via SELECT or PRINT, SHOW CURSORS (every declared cursor and no other is listed; Closed, or Open with the number of rows of the snapshot and the pointer: UNKNOWN before the first fetch, Out of Range, or exactly the position of the model), FETCH into holder variables that nothing else assigns, read back after the cursor was moved, closed, disposed or opened anew, after data changes and value-creating statements and at the end of the history (they must still hold the fetched row), every statement spelling the cursor name on its own (30%: other character case and/or enclosed in grave accents: identifiers are case-insensitive), 40% of the huge offsets written as float literals beyond the 64-bit integer range (+-2^63, +-9.3e18, +-1e19, +-1e30, +-1.5e300: refused as not an integer, or the pointer goes beyond the end the sign points to), INSERT/UPDATE/DELETE/COMMIT/ROLLBACK and ALTER TABLE DROP/ADD/RENAME on t, creation/disposal of u, integer-allocating statements; executed statement by statement on one session next to a model {declared, open, snapshot, pointer set, fetched}. OPEN must fail exactly when the cursor's own query (run as a statement, resp. EXECUTE of the prepared statement with the same values, immediately before or after) fails; after a failed OPEN the cursor is closed (IS OPEN FALSE, then whatever the history does next: FETCH/COUNT/IS IN RANGE raise 11003, a later OPEN snapshots the current table); after a successful one the snapshot is that reference result with value types; every cursor still open at the end is re-listed by FETCH ABSOLUTE 0..len and compared with it. Non-trivial = a data change between OPEN and a later in-range fetch, or a relative fetch after the pointer left the view, or a fetched row read back from the holder variables after its cursor was closed, disposed or opened anew; distinct by the compressed operation/outcome sequence",
+		Rule: "a table t (CSV file with text cells or temporary table with integer ids, 0-6 rows) and a history of 4-31 operations on two cursors generated up front: DECLARE (14 queries incl. ORDER BY, LIMIT, variable, self-join, FROM-subquery, computed integer/float columns, and four that fail for some table states: division by zero in the select list / in WHERE, scalar subquery with too many records, a table u that may not exist; 3 prepared statements incl. SELECT ... INTO), OPEN [USING none/one/two values], FETCH in all six positions with offsets -9..9 (9% of the undirected ABSOLUTE/RELATIVE fetches: literals around +-2^31, +-2^62 and +-(2^63-1)) given as literal, variable (also one filled by an earlier FETCH) or expression, the same FETCH statement repeated inside a WHILE loop with integer arithmetic in between, CLOSE, DISPOSE, WHILE IN (VAR, BREAK, DML in the body; bodies that DISPOSE, CLOSE or CLOSE+re-OPEN the loop cursor in some iteration, directly or in a nested IF: every iteration fetches from what the name refers to then; an inner cursor of the same name declared in a nested block, looped over and disposed in the body, after which the name means the outer cursor), DISPOSE of the variables a FETCH filled followed by value-creating expressions (concatenation, string functions, arithmetic in SET/PRINT/SELECT) and re-reads of the same row, IS [NOT] OPEN / IS [NOT] IN RANGE / COUNT via SELECT or PRINT, SHOW CURSORS (every declared cursor and no other is listed; Closed, or Open with the number of rows of the snapshot and the pointer: UNKNOWN before the first fetch, Out of Range, or exactly the position of the model), FETCH into holder variables that nothing else assigns, read back after the cursor was moved, closed, disposed or opened anew, after data changes and value-creating statements and at the end of the history (they must still hold the fetched row), every statement spelling the cursor name on its own (30%: other character case and/or enclosed in grave accents: identifiers are case-insensitive), 40% of the huge offsets written as float literals beyond the 64-bit integer range (+-2^63, +-9.3e18, +-1e19, +-1e30, +-1.5e300: refused as not an integer, or the pointer goes beyond the end the sign points to), INSERT/UPDATE/DELETE/COMMIT/ROLLBACK and ALTER TABLE DROP/ADD/RENAME on t, creation/disposal of u, integer-allocating statements; executed statement by statement on one session next to a model {declared, open, snapshot, pointer set, fetched}. OPEN must fail exactly when the cursor's own query (run as a statement, resp. EXECUTE of the prepared statement with the same values, immediately before or after) fails; after a failed OPEN the cursor is closed (IS OPEN FALSE, then whatever the history does next: FETCH/COUNT/IS IN RANGE raise 11003, a later OPEN snapshots the current table); after a successful one the snapshot is that reference result with value types; every cursor still open at the end is re-listed by FETCH ABSOLUTE 0..len and compared with it. Non-trivial = a data change between OPEN and a later in-range fetch, or a relative fetch after the pointer left the view, or a fetched row read back from the holder variables after its cursor was closed, disposed or opened anew; distinct by the compressed operation/outcome sequence; round 7: in 30% of the WHILE IN loops without a data-changing body the body declares, opens and fetches from a cursor of its own (and declares a variable): they live for one iteration, so every further iteration declares them again without an error",
 		Assumptions: []string{
 			"variables after an out-of-range fetch: NULL (manual) and unchanged (implementation) are both admitted, record data is not",
 			"after a WHILE IN that ran to the end the pointer may be on the last record (literal reading of control-flow.md) or past it (FETCH NEXT semantics); the model keeps both until an observation decides",
